@@ -55,7 +55,7 @@ CHECKS["C15"] = dict(
          "on retransmitted messages): all datagrams with the same (sender incarnation, session, counter, source) are bit-identical; the "
          "counters a session hands out strictly increase and every emitted datagram carries a handed-out counter (guarded event hook); "
          "snapshots: unique local session ids / exchange ids; plus an allocation history of > 66 000 exchanges with long-lived ones across "
-         "the 16-bit id wrap. Handshake retransmissions (randomised signatures) are covered by the same oracle in the CASE world when built.",
+         "the 16-bit id wrap.",
     design="DESIGN.md §4 C15",
     technique="deterministic simulation with fault injection: seeded fault/schedule search with wire-tap identity oracle and id-uniqueness invariants",
 )
@@ -217,6 +217,42 @@ CHECKS["C20"] = dict(
     design="DESIGN.md §4 C20",
     technique="deterministic simulation with fault injection: abandonment/cancellation search with bounded-liveness and resource-accounting oracle",
 )
+
+# Scenario families added after the second round of seeded defects
+_ADD = {
+    "C01": " Family expelled-peer-after-index-reuse: three controllers; the second one's fabric is removed by the first while it is reading "
+           "(or after it went quiet), a third fabric takes the freed index, the expelled controller - which still holds its credentials and a "
+           "resumption record - must not get a session any more.",
+    "C02": " Families window-expires-mid-handshake(-delays): a window of 180 s runs out within a few network latencies of one to three handshakes "
+           "of another commissioner (device probed every 200 us): no PASE session comes into existence after the expiry, the window is closed "
+           "and no longer advertised one polling period later, also while a handshake is in progress. Failed proofs are counted on the wire "
+           "(Pake2 sent to an initiator with a wrong passcode), not by the initiator's error code.",
+    "C03": " Families raw-peer-header-shapes(-and-forgeries): one stack additionally opens exchanges with a raw peer (harness-made, authentic "
+           "under the session keys: a conforming implementation other than rs-matter) which answers with stand-alone acknowledgements and with "
+           "messages carrying an acknowledgement counter, a protocol vendor id, or both; the first copy of each of its messages must be taken in "
+           "(not classified duplicate / erroneous) and an acknowledgement it carried must end the retransmissions.",
+    "C04": " Family system-raw-peer-counters: the two stacks plus an authentic raw peer whose counters start anywhere, jump by up to 2^31 and arrive "
+           "dropped / duplicated / reordered. Family system-group-senders-and-forgeries: 2-3 stacks of one real fabric with group keys, group data "
+           "messages and unicast traffic with forged variants of the datagrams arriving before or after the authentic ones; per (receiver, group "
+           "sender) an authentic message above everything accepted so far is accepted, none twice.",
+    "C06": " Writes are also sent in two chunks (MoreChunkedMessages), the second one up to 900 ms later and with its own TimedRequest flag: a "
+           "timed-only element acts only inside a timed interaction that has not expired. Without faults every read / subscribe is answered to "
+           "the end (oracle answer-abandoned).",
+    "C07": " In half of the roll-back runs the pending fabric's ACL is rewritten over CASE before the fail-safe ends; the expelled controller of the "
+           "remove-fabric runs may have gone quiet before the removal.",
+    "C09": " In a third of the runs 1-4 idle sessions of the nodes are removed (evicted) while senders wait for acknowledgements (the "
+           "session-removed notification reaches every waiter).",
+    "C11": " Family damaged-resumption-cache: the stored CASE resumption blob is damaged while the device is down (empty, truncated, bit / byte "
+           "flips, garbage, extension): start-up is not prevented, every committed fabric is there.",
+    "C14": " Without faults every read / subscribe is answered to the end (oracle answer-abandoned).",
+    "C15": " Family handshakes-under-loss: two real commissioners commission and operate one real device under 5-30 % loss, duplication, delay "
+           "and a device restart (resumption): all datagrams of a node under one session id and counter (PASE, Sigma1/2/3, Sigma2Resume, IM) are "
+           "bit-identical.",
+    "C20": " Fault-free family additionally: the PASE establishment-in-progress marker is never set for more than 300 ms without a handshake "
+           "exchange on the device.",
+}
+for _k, _v in _ADD.items():
+    CHECKS[_k]["text"] += _v
 
 NOT_APPLICABLE = {
     "C05": "pure function of (ACL entries, accessor, request): no schedule, clock, fault or history to simulate; stateful neighbours are covered by C06/C07",
